@@ -259,6 +259,9 @@ func c31(c *core.Ctx) {
 			return ok && v.Value != nil && v.Value.String() == "true"
 		}
 		for _, h := range accessHelpers {
+			if permitHelper(c, h, accessFn, getAttr) {
+				continue
+			}
 			for _, gc := range ssax.CallsTo(h, getAttr) {
 				var ta *ssa.TypeAssert
 				for _, b := range h.Blocks {
@@ -720,4 +723,154 @@ func c34(c *core.Ctx) {
 			c.Ob("C34.handlers", fname(f)+"·go "+fname(target), pos(c, g), !bad, "goroutine started while handling a request writes node value storage: "+boolStr(bad)+" "+why)
 		}
 	}
+}
+
+// bitTestEdge: the edge a→b is the one on which `(v & flag) != 0` holds for a v derived from call's result.
+func bitTestEdge(a, b *ssa.BasicBlock, call ssa.CallInstruction) bool {
+	ifi, ok := a.Instrs[len(a.Instrs)-1].(*ssa.If)
+	if !ok || len(a.Succs) != 2 {
+		return false
+	}
+	cmp, neg, ok := ssax.AsCmp(ifi.Cond)
+	if !ok {
+		return false
+	}
+	bo, isAnd := ssax.Strip(cmp.X).(*ssa.BinOp)
+	if !isAnd || bo.Op != token.AND {
+		return false
+	}
+	if z, ok := ssax.ConstInt(cmp.Y); !ok || z != 0 {
+		return false
+	}
+	if !fromCall(bo.X, call) && !fromCall(bo.Y, call) {
+		return false
+	}
+	op := cmp.Op
+	if neg {
+		op = ssax.NegOp(op)
+	}
+	if op == token.EQL {
+		return b == a.Succs[1]
+	}
+	if op == token.NEQ {
+		return b == a.Succs[0]
+	}
+	return false
+}
+
+// permitHelper handles a helper of Access with a single boolean result ("does this level attribute permit the flag?").
+// Decided: (1) in the helper, with the attribute present, a result that can be true is reached only through the
+// flag-bit test — a returned constant true behind a passed test, or the returned test `v&flag != 0` itself; a failed
+// uint8 assertion therefore yields false; (2) in Access, a result other than constant false or the helper's own result
+// is returned only where every helper call's result is known true. Returns false if h is not of that shape.
+func permitHelper(c *core.Ctx, h, accessFn *ssa.Function, getAttr *types.Func) bool {
+	res := h.Signature.Results()
+	if res.Len() != 1 || res.At(0).Type().String() != "bool" {
+		return false
+	}
+	gcs := ssax.CallsTo(h, getAttr)
+	if len(gcs) != 1 {
+		return false
+	}
+	gc := gcs[0]
+	errV := errResult(gc)
+	var to *ssa.BasicBlock
+	for _, b := range h.Blocks {
+		if len(b.Instrs) == 0 {
+			continue
+		}
+		ifi, ok := b.Instrs[len(b.Instrs)-1].(*ssa.If)
+		if !ok {
+			continue
+		}
+		cmp, neg, ok := ssax.AsCmp(ifi.Cond)
+		if !ok || !denotes(cmp.X, errV) || !ssax.IsNil(cmp.Y) {
+			continue
+		}
+		op := cmp.Op
+		if neg {
+			op = ssax.NegOp(op)
+		}
+		if op == token.EQL {
+			to = b.Succs[0]
+		} else if op == token.NEQ {
+			to = b.Succs[1]
+		}
+	}
+	key := fname(accessFn) + "·level attribute read in " + fname(h) + " present ⇒ flag bit required"
+	if to == nil {
+		c.Ob("C31.failclosed", key, pos(c, gc), false, "the attribute lookup's error is not tested: absence and presence are not distinguished")
+		return true
+	}
+	// a return that may be true without the bit test: constant true, or a non-constant value that is not the bit test
+	mayBeTrue := func(in ssa.Instruction) bool {
+		r, ok := in.(*ssa.Return)
+		if !ok || r.Block() == h.Recover {
+			return false
+		}
+		v := ssax.Strip(ssax.RetVal(r, 0))
+		if k, ok := v.(*ssa.Const); ok {
+			return k.Value != nil && k.Value.String() == "true"
+		}
+		if cmp, neg, ok := ssax.AsCmp(v); ok {
+			if bo, isAnd := ssax.Strip(cmp.X).(*ssa.BinOp); isAnd && bo.Op == token.AND && (fromCall(bo.X, gc) || fromCall(bo.Y, gc)) {
+				if z, ok := ssax.ConstInt(cmp.Y); ok && z == 0 {
+					op := cmp.Op
+					if neg {
+						op = ssax.NegOp(op)
+					}
+					if op == token.NEQ {
+						return false // the bit test itself
+					}
+				}
+			}
+		}
+		return true
+	}
+	first := to.Instrs[0]
+	bad := mayBeTrue(first)
+	var tr []ssa.Instruction
+	if !bad {
+		bad, tr = ssax.Reach(h, first, mayBeTrue, nil, func(a, b *ssa.BasicBlock) bool { return bitTestEdge(a, b, gc) })
+	}
+	c.Ob("C31.failclosed", key, pos(c, gc), !bad, "with the attribute present the helper can report true without passing the flag-bit test: "+boolStr(bad), trace(c, tr)...)
+	// (2) Access
+	var calls []ssa.Value
+	for _, hc := range ssax.Calls(accessFn) {
+		if hc.Common().StaticCallee() == h {
+			if v, ok := hc.(ssa.Value); ok {
+				calls = append(calls, v)
+			}
+		}
+	}
+	okAll := len(calls) > 0
+	detail := "Access returns constant false, a helper result, or — where every preceding helper result is known true — anything"
+	for _, r := range ssax.Returns(accessFn) {
+		if r.Block() == accessFn.Recover {
+			continue
+		}
+		v := ssax.Strip(ssax.RetVal(r, 0))
+		if k, ok := v.(*ssa.Const); ok && k.Value != nil && k.Value.String() == "false" {
+			continue
+		}
+		trues, _ := ssax.BoolFactsAt(r)
+		for _, cv := range calls {
+			if v == cv {
+				continue
+			}
+			known := false
+			for _, t := range trues {
+				if ssax.Strip(t) == cv {
+					known = true
+				}
+			}
+			// a helper call that does not precede the return at all (a loop form) is covered by the loop's own exit test
+			if !known && ssax.Dominates(cv.(ssa.Instruction), r) {
+				okAll = false
+				detail = "Access can return " + ssax.Path(v) + " at " + pos(c, r) + " although " + fname(h) + " may have reported false"
+			}
+		}
+	}
+	c.Ob("C31.failclosed", fname(accessFn)+"·honours the result of "+fname(h), c.P.Pos(accessFn.Pos()), okAll, detail)
+	return true
 }
